@@ -211,12 +211,14 @@ You can provide input either as a file (as the first argument) or by piping logs
 					fmt.Fprintf(os.Stderr, "Error downloading Atlas logs: %v\n", err)
 					os.Exit(1)
 				}
-				// Always clean up downloaded log files, even if redaction fails
-				defer func() {
+				// Always clean up downloaded log files, even if redaction fails.
+				// os.Exit does not run deferred functions, so the error exits below call it explicitly.
+				cleanupDownloads := func() {
 					if delErr := client.DeleteClusterLogs(cmd.Context(), files); delErr != nil {
 						fmt.Fprintf(os.Stderr, "Error cleaning up Atlas log files: %v\n", delErr)
 					}
-				}()
+				}
+				defer cleanupDownloads()
 				fileReader := &DefaultFileReader{}
 				for i, file := range files {
 					// Compose output file path with serial integer
@@ -224,6 +226,7 @@ You can provide input either as a file (as the first argument) or by piping logs
 					outWriter, err := os.Create(outPath)
 					if err != nil {
 						fmt.Fprintf(os.Stderr, "Error opening output file %s: %v\n", outPath, err)
+						cleanupDownloads()
 						os.Exit(1)
 					}
 					defer outWriter.Close()
@@ -232,6 +235,7 @@ You can provide input either as a file (as the first argument) or by piping logs
 					totalLines, err := countLines(fileReader, file)
 					if err != nil {
 						fmt.Fprintf(os.Stderr, "Error counting lines in %s: %v\n", file, err)
+						cleanupDownloads()
 						os.Exit(1)
 					}
 					bar = progressbar.NewOptions64(int64(totalLines),
@@ -260,6 +264,7 @@ You can provide input either as a file (as the first argument) or by piping logs
 					if err := ProcessMongoLogFile(fileReader, file, outWriter, bar); err != nil {
 						fmt.Fprintf(os.Stderr, "Error processing log file %s: %v\n", file, err)
 						outWriter.Close()
+						cleanupDownloads()
 						os.Exit(1)
 					}
 					outWriter.Close()
